@@ -13,6 +13,7 @@ warnings.simplefilter("ignore")
 
 class T(param.Parameterized):
     p = param.Integer(default=0, allow_refs=True)
+    q = param.Integer(default=0, allow_refs=True)      # a second parameter with its own pending reference
 
 
 def fstate(f):
@@ -23,21 +24,32 @@ def replay(beh, opts):
     # every behaviour twice: a fresh function object per assignment, and one function object (per kind)
     # assigned again and again -- its n-th call awaits the n-th assignment's awaitables
     res = None
-    for shared in (False, True):
-        res = _replay(beh, opts, shared)
+    for shared, ctor in ((False, False), (True, False), (False, True)):
+        res = _replay(beh, opts, shared, ctor)
         if res["status"] != "ok":
-            res["msg"] = "[%s] %s" % ("one function object re-assigned" if shared else "fresh functions", res.get("msg"))
+            res["msg"] = "[%s%s] %s" % ("one function object re-assigned" if shared else "fresh functions",
+                                       ", first assignment made by the constructor" if ctor else "", res.get("msg"))
             break
     return res
 
 
-def _replay(beh, opts, shared):
+def _replay(beh, opts, shared, ctor=False):
     steps = beh["steps"]
     loop = StepLoop()
     asyncio._set_running_loop(loop)
     res = {"status": "ok", "nontrivial": any(s["a"] == "tick" and s["what"] in ("apply", "start") for s in steps), "kf": []}
     try:
-        t = T()
+        t = None if ctor else T()
+        qfut = loop.create_future()
+
+        async def q_ref():
+            return await qfut
+
+        if t is not None:
+            # q's coroutine reference is started and stays pending for the whole behaviour
+            t.q = q_ref
+            while loop.tick():
+                pass
         futs = {}
         kinds = {}
         # which awaitables an invocation of the shared function waits for is fixed when the task is created
@@ -64,7 +76,10 @@ def _replay(beh, opts, shared):
                     async def co(f=f):
                         return await f
                     bound.set((f,))
-                    t.p = shared_co if shared else co
+                    if t is None:
+                        t = T(p=shared_co if shared else co)
+                    else:
+                        t.p = shared_co if shared else co
                 elif st["kind"] == "gen":
                     f1, f2 = loop.create_future(), loop.create_future()
                     futs[(i, 1)], futs[(i, 2)] = f1, f2
@@ -73,9 +88,15 @@ def _replay(beh, opts, shared):
                         yield await f1
                         yield await f2
                     bound.set((f1, f2))
-                    t.p = shared_gen if shared else gen
+                    if t is None:
+                        t = T(p=shared_gen if shared else gen)
+                    else:
+                        t.p = shared_gen if shared else gen
                 else:
-                    t.p = 3000 + i
+                    if t is None:
+                        t = T(p=3000 + i)
+                    else:
+                        t.p = 3000 + i
             elif a == "resolve":
                 i, kk = st["i"], st["k"]
                 futs[(i, kk)].set_result((2000 + 10 * i + kk) if kinds[i] == "gen" else "rejected" if kinds[i] == "bad" else 1000 + i)
@@ -85,7 +106,7 @@ def _replay(beh, opts, shared):
             if bad is None:
                 o = st["obs"]
                 n = len(o["fut"])
-                got = {"val": t.p, "fut": [[fstate(futs.get((i, 1))), fstate(futs.get((i, 2)))] for i in range(1, n + 1)]}
+                got = {"val": 0 if t is None else t.p, "fut": [[fstate(futs.get((i, 1))), fstate(futs.get((i, 2)))] for i in range(1, n + 1)]}
                 if got != o:
                     kind = "late_result" if got["val"] != o["val"] else "future_state"
                     bad = (kind, "after %s: observed %s, spec expects %s" % ({x: y for x, y in st.items() if x not in ("obs", "kf")}, got, o))
@@ -95,6 +116,20 @@ def _replay(beh, opts, shared):
             if bad:
                 return {"status": "diverge", "step": k, "kind": bad[0], "msg": bad[1], "expected": st.get("obs"), "observed": None,
                         "tags": sorted({x for s in steps[:k + 1] for x in s.get("kf", [])}), "nontrivial": True, "kf": []}
+        if t is not None and not ctor:
+            # the other parameter's reference was never assigned to: its result must still arrive
+            if qfut.done():
+                return {"status": "diverge", "step": len(steps) - 1, "kind": "other_parameter_cancelled",
+                        "msg": "a second parameter of the same object had a pending coroutine reference throughout; its awaitable was %s by assignments to p" % fstate(qfut),
+                        "expected": "pending", "observed": fstate(qfut), "tags": sorted({x for s in steps for x in s.get("kf", [])}), "nontrivial": True, "kf": []}
+            qfut.set_result(777)
+            for _ in range(50):
+                if not loop.tick():
+                    break
+            if t.q != 777:
+                return {"status": "diverge", "step": len(steps) - 1, "kind": "other_parameter_cancelled",
+                        "msg": "a second parameter of the same object had a pending coroutine reference throughout; after it completed the parameter holds %r, expected 777 (assignments to p must not cancel q's reference)" % (t.q,),
+                        "expected": 777, "observed": t.q, "tags": sorted({x for s in steps for x in s.get("kf", [])}), "nontrivial": True, "kf": []}
         # (a task that failed applying a rejected result reports its ValueError to the loop: expected)
         loop.errors = [e for e in loop.errors if not (isinstance(e.get("exception"), ValueError) and "bad" in kinds.values())]
         if getattr(loop, "errors", None):
